@@ -12,6 +12,7 @@ mod framework;
 mod registry;
 mod scen_agg;
 mod scen_emf;
+mod scen_global;
 mod scen_queue;
 mod scen_uow;
 
